@@ -71,7 +71,8 @@ def multiline_text(rng):
         if i > 0 and i < n - 1 and rng.random() < 0.2 and ls[-1] != "":
             ls.append("")
         else:
-            ls.append(rng.choice(["error: boom", "line two", "  indented", "x", "----", "# not a comment", "tab\there", "é🙂", "statement ok"]))
+            ls.append(rng.choice(["error: boom", "line two", "  indented", "x", "----", "# not a comment", "tab\there", "é🙂", "statement ok",
+                                  "LINE 1: select * from ", "trailing blanks   ", "tab at the end\t", "   "]))
     while ls and ls[-1] == "":
         ls.pop()
     while ls and ls[0] == "":
